@@ -2,6 +2,7 @@ package main
 
 import (
 	"bytes"
+	"context"
 	"database/sql"
 	"encoding/json"
 	"fmt"
@@ -60,15 +61,22 @@ func newWorker(store, tmp string) *worker {
 	lg := zerolog.Nop()
 	be, err := storage.NewLocalBackend(store, lg)
 	must(err, "storage.NewLocalBackend")
-	db, err := database.New(&database.Config{
-		MaxConnections:         2,
-		MemoryLimit:            "512MB",
-		ThreadCount:            1,
-		PreserveInsertionOrder: true,
-		TempDirectory:          filepath.Join(tmp, "spill"),
-		UploadDir:              filepath.Join(tmp, "upload"),
-		LocalStorageRoot:       be.GetBasePath(),
-	}, lg)
+	var db *database.DuckDB
+	for attempt := 0; attempt < 4; attempt++ { // database.New has internal start-up timeouts that a loaded machine can exceed
+		db, err = database.New(&database.Config{
+			MaxConnections:         2,
+			MemoryLimit:            "512MB",
+			ThreadCount:            1,
+			PreserveInsertionOrder: true,
+			TempDirectory:          filepath.Join(tmp, "spill"),
+			UploadDir:              filepath.Join(tmp, "upload"),
+			LocalStorageRoot:       be.GetBasePath(),
+		}, lg)
+		if err == nil || !strings.Contains(err.Error(), "deadline exceeded") {
+			break
+		}
+		time.Sleep(time.Duration(attempt+1) * time.Second)
+	}
 	must(err, "database.New")
 	w.arcdb = db
 	w.files, err = storedFiles(store)
@@ -83,7 +91,7 @@ func newWorker(store, tmp string) *worker {
 
 // freshHandler installs a new QueryHandler (empty transform cache) on a new fiber app.
 func (w *worker) freshHandler() {
-	w.handler = api.NewQueryHandler(w.arcdb, mustBackend(w.store), zerolog.Nop(), 0, 0)
+	w.handler = api.NewQueryHandler(w.arcdb, mustBackend(w.store), zerolog.Nop(), 60, 0)
 	w.app = fiber.New(fiber.Config{DisableStartupMessage: true})
 	w.handler.RegisterRoutes(w.app)
 }
@@ -165,9 +173,24 @@ func canonCell(v any) string {
 }
 
 func (w *worker) askOracle(sqlText, header string) *answer {
+	return w.askOracleTimeout(sqlText, header, 0)
+}
+
+// askOracleTimeout: timeout > 0 bounds the execution (the minimiser's candidates can be non-terminating, e.g. a
+// recursive CTE that lost its stop condition); a timed-out query is reported as Err "timeout".
+func (w *worker) askOracleTimeout(sqlText, header string, timeout time.Duration) *answer {
 	w.execs++
-	rows, err := w.oracle[header].Query(sqlText)
+	ctx := context.Background()
+	if timeout > 0 {
+		var cancel context.CancelFunc
+		ctx, cancel = context.WithTimeout(ctx, timeout)
+		defer cancel()
+	}
+	rows, err := w.oracle[header].QueryContext(ctx, sqlText)
 	if err != nil {
+		if ctx.Err() != nil {
+			return &answer{Err: "timeout"}
+		}
 		return &answer{Err: err.Error()}
 	}
 	defer rows.Close()
@@ -189,6 +212,9 @@ func (w *worker) askOracle(sqlText, header string) *answer {
 		a.Rows = append(a.Rows, strings.Join(cells, " | "))
 	}
 	if err := rows.Err(); err != nil {
+		if ctx.Err() != nil {
+			return &answer{Err: "timeout"}
+		}
 		return &answer{Err: err.Error()}
 	}
 	a.Count = len(a.Rows)
@@ -310,6 +336,9 @@ func compare(o, a *answer, ordered bool) (string, string) {
 			return "arc-rejects:" + errClass(a.Status, a.Err), "DuckDB answers " + fmt.Sprint(o.Count) + " rows; Arc rejects the query: " + trunc(pathNoise.ReplaceAllString(a.Err, "<store>"), 300)
 		}
 		return "arc-fails:" + errClass(a.Status, a.Err), "DuckDB answers " + fmt.Sprint(o.Count) + " rows; Arc fails: " + trunc(pathNoise.ReplaceAllString(a.Err, "<store>"), 300)
+	case !o.OK && a.OK && len(a.Cols) == 0:
+		// Arc's "no files found => empty result" path: some word was taken for a measurement that has no data
+		return "arc-answers-empty-without-columns-duckdb-fails:" + errClass(0, o.Err), fmt.Sprintf("Arc answers success with no columns and no rows; DuckDB fails: %s", trunc(pathNoise.ReplaceAllString(o.Err, "<store>"), 300))
 	case !o.OK && a.OK:
 		return "arc-answers-duckdb-fails:" + errClass(0, o.Err), fmt.Sprintf("Arc answers %d rows; DuckDB fails: %s", len(a.Rows), trunc(pathNoise.ReplaceAllString(o.Err, "<store>"), 300))
 	}
